@@ -52,6 +52,7 @@ type plJob struct {
 	Templates []plDgram `json:"templates"` // announced and fully processed first
 	Data      []plDgram `json:"data"`      // then these, interleaved by the scheduler
 	Lazy      int       `json:"lazy"`      // the consumer takes a message with probability 1/Lazy per move
+	Retire    int       `json:"retire"`    // dynamic workers: how many workers are told to quit during the data phase
 }
 
 type plEvent struct {
@@ -108,6 +109,8 @@ type plHook struct {
 }
 
 type plWorker struct {
+	quit     chan struct{}
+	retiring bool
 	id     int // small worker number
 	gate   string
 	body   []byte
@@ -121,7 +124,7 @@ type plProto struct {
 	send    func(raddr *net.UDPAddr, body []byte)
 	qlen    func() int
 	mq      chan []byte
-	start   func()
+	start   func(quit chan struct{})
 	decoded func() uint64
 	alone   func(tpls []plDgram, d plDgram) []byte
 	class   func(tpls []plDgram, d plDgram) string
@@ -135,7 +138,7 @@ func plAdapter(proto string, size int) plProto {
 		return plProto{pool: ipfixBuffer, mq: ipfixMQCh,
 			send:    func(r *net.UDPAddr, b []byte) { ipfixUDPCh <- IPFIXUDPMsg{r, b} },
 			qlen:    func() int { return len(ipfixUDPCh) },
-			start:   func() { go i.ipfixWorker(make(chan struct{})) },
+			start:   func(q chan struct{}) { go i.ipfixWorker(q) },
 			decoded: func() uint64 { return atomic.LoadUint64(&i.stats.DecodedCount) },
 			class: func(tpls []plDgram, d plDgram) string {
 				c := ipfix.GetCache("")
@@ -170,7 +173,7 @@ func plAdapter(proto string, size int) plProto {
 		return plProto{pool: netflowV9Buffer, mq: netflowV9MQCh,
 			send:    func(r *net.UDPAddr, b []byte) { netflowV9UDPCh <- NetflowV9UDPMsg{r, b} },
 			qlen:    func() int { return len(netflowV9UDPCh) },
-			start:   func() { go i.netflowV9Worker(make(chan struct{})) },
+			start:   func(q chan struct{}) { go i.netflowV9Worker(q) },
 			decoded: func() uint64 { return atomic.LoadUint64(&i.stats.DecodedCount) },
 			class: func(tpls []plDgram, d plDgram) string {
 				c := netflow9.GetCache("")
@@ -205,7 +208,7 @@ func plAdapter(proto string, size int) plProto {
 		return plProto{pool: netflowV5Buffer, mq: netflowV5MQCh,
 			send:    func(r *net.UDPAddr, b []byte) { netflowV5UDPCh <- NetflowV5UDPMsg{r, b} },
 			qlen:    func() int { return len(netflowV5UDPCh) },
-			start:   func() { go i.netflowV5Worker(make(chan struct{})) },
+			start:   func(q chan struct{}) { go i.netflowV5Worker(q) },
 			decoded: func() uint64 { return atomic.LoadUint64(&i.stats.DecodedCount) },
 			class: func(tpls []plDgram, d plDgram) string {
 				m, err := netflow5.NewDecoder(plBytes(d.Exp), plBytes(d.Buf)).Decode()
@@ -228,7 +231,7 @@ func plAdapter(proto string, size int) plProto {
 		return plProto{pool: sFlowBuffer, mq: sFlowMQCh,
 			send:    func(r *net.UDPAddr, b []byte) { sFlowUDPCh <- SFUDPMsg{r, b} },
 			qlen:    func() int { return len(sFlowUDPCh) },
-			start:   func() { go s.sFlowWorker(make(chan struct{})) },
+			start:   func(q chan struct{}) { go s.sFlowWorker(q) },
 			decoded: func() uint64 { return atomic.LoadUint64(&s.stats.DecodedCount) },
 			class: func(tpls []plDgram, d plDgram) string {
 				dec := sflow.NewSFDecoder(bytes.NewReader(plBytes(d.Buf)), opts.SFlowTypeFilter)
@@ -388,6 +391,22 @@ func plRun(job plJob) (res plResult) {
 		g := w.gate
 		w.gate = ""
 		close(w.resume)
+		if g == "Top" && w.retiring {
+			// told to quit: at its select it may take a datagram (if one is queued) or leave - without a hook
+			select {
+			case h := <-events:
+				events <- h // not consumed here
+				takeEvent()
+			case <-time.After(100 * time.Millisecond):
+				ev(plEvent{Ev: "Gone", W: w.id})
+				for g, x := range workers {
+					if x == w {
+						delete(workers, g)
+					}
+				}
+			}
+			return
+		}
 		if g == "Top" && ad.qlen() == 0 {
 			waiting++ // it will block on the empty queue without reaching a hook
 			runtime.Gosched()
@@ -444,11 +463,16 @@ func plRun(job plJob) (res plResult) {
 	}
 
 	for n := 0; n < job.Workers; n++ {
-		ad.start()
-	}
-	for n := 0; n < job.Workers; n++ {
-		if !takeEvent() { // every worker stops at its first "Top"
+		q := make(chan struct{})
+		before := len(workers)
+		ad.start(q)
+		if !takeEvent() { // the worker stops at its first "Top"
 			return
+		}
+		for _, w := range workers {
+			if w.id == before+1 {
+				w.quit = q
+			}
 		}
 	}
 	// phase 1: templates, processed to the end one after the other
@@ -484,6 +508,7 @@ func plRun(job plJob) (res plResult) {
 	}
 	// phase 2: data, interleaved
 	next := 0
+	retired := 0
 	lazy := job.Lazy
 	if lazy < 1 {
 		lazy = 1
@@ -509,6 +534,14 @@ func plRun(job plJob) (res plResult) {
 		if rng.Intn(lazy) == 0 {
 			moves = append(moves, "consume")
 		}
+		if retired < job.Retire && len(workers) > 1 && next > len(job.Data)/3 {
+			for _, w := range ps {
+				if w.gate == "Top" && !w.retiring {
+					moves = append(moves, "retire")
+					break
+				}
+			}
+		}
 		if len(moves) == 0 {
 			res.Problem = "scheduler has no move"
 			return
@@ -531,6 +564,16 @@ func plRun(job plJob) (res plResult) {
 				}
 			}
 			release(cand[rng.Intn(len(cand))])
+		case "retire":
+			for _, w := range ps {
+				if w.gate == "Top" && !w.retiring {
+					w.retiring = true
+					retired++
+					close(w.quit) // what dynWorkers does on scale-down
+					ev(plEvent{Ev: "Retire", W: w.id})
+					break
+				}
+			}
 		case "consume":
 			consume()
 		}
